@@ -193,7 +193,8 @@ class Rotation(BaseOperation):
         atoms = context.atoms
 
         molecule = cast("Atoms", atoms[context._moving_indices])
-        phi, theta, psi = context.rng.uniform(0, 2 * np.pi, 3)
+        phi, psi = context.rng.uniform(0, 360, 2)
+        theta = np.degrees(np.arccos(context.rng.uniform(-1, 1)))
         molecule.euler_rotate(phi, theta, psi, center="COM")  # type: ignore
 
         return molecule.positions - context.atoms.positions[context._moving_indices]
